@@ -24,6 +24,15 @@ type_args = ("(" + pp.original_text_for(expression) + ")")
 # column type is parsed as a single string, it will be split by blueprint
 column_type = pp.Combine((name + pp.Literal('[]')) | (name + '.' + name) | ((name) + type_args[0, 1]))
 
+
+def convert_number(s: str, loc: int, text: str):
+    try:
+        return float(text) if '.' in text else int(text)
+    except ValueError:
+        # the interpreter refuses to convert very long integer literals (sys.get_int_max_str_digits)
+        raise pp.ParseFatalException(s, loc, 'Number literal is too long')
+
+
 default = pp.CaselessLiteral('default:').suppress() + _ - (
     string_literal
     | expression_literal
@@ -35,7 +44,7 @@ default = pp.CaselessLiteral('default:').suppress() + _ - (
         }[tok[0]]
     )
     | number_literal.set_parse_action(
-        lambda s, loc, tok: float(''.join(tok[0])) if '.' in tok[0] else int(tok[0])
+        lambda s, loc, tok: convert_number(s, loc, tok[0])
     )
 )
 
